@@ -1,1 +1,47 @@
-From V.C15 Require Import Model Spec.
+(* C15 — non-vacuity and the documentation's own examples evaluated on the model. *)
+From Coq Require Import ZArith List Bool String.
+From V.C15 Require Import Model Spec Run StrModel.
+Open Scope Z_scope.
+Open Scope string_scope.
+
+Definition a5 := [EInt 1; EInt 2; EInt 3; EInt 4; EInt 5].
+(* docs/array_methods.md *)
+Example ex_slice : call MSlice a5 [EInt 2] = (EArr [EInt 3; EInt 4; EInt 5], a5)
+                /\ call MSlice a5 [EInt (-2)] = (EArr [EInt 4; EInt 5], a5)
+                /\ call MSlice a5 [EInt 1; EInt 3] = (EArr [EInt 2; EInt 3], a5).
+Proof. repeat split; vm_compute; reflexivity. Qed.
+Example ex_splice : call MSplice a5 [EInt 1; EInt 2; EStr "a"; EStr "b"] =
+  (EArr [EInt 2; EInt 3], [EInt 1; EStr "a"; EStr "b"; EInt 4; EInt 5]).
+Proof. vm_compute. reflexivity. Qed.
+Example ex_concat : call MConcat [EInt 1; EInt 2] [EArr [EInt 3; EInt 4]; EArr [EInt 5; EInt 6]] =
+  (EArr [EInt 1; EInt 2; EInt 3; EInt 4; EInt 5; EInt 6], [EInt 1; EInt 2]).
+Proof. vm_compute. reflexivity. Qed.
+Example ex_push : call MPush [EInt 1; EInt 2; EInt 3] [EInt 4; EInt 5] = (EInt 5, a5).
+Proof. vm_compute. reflexivity. Qed.
+Example ex_join : call MJoin [EStr "apple"; EStr "banana"] [] = (EStr "apple,banana", [EStr "apple"; EStr "banana"]).
+Proof. vm_compute. reflexivity. Qed.
+Example ex_flat : call MFlat [EInt 1; EArr [EInt 2; EArr [EInt 3]]] [] =
+  (EArr [EInt 1; EInt 2; EArr [EInt 3]], [EInt 1; EArr [EInt 2; EArr [EInt 3]]]).
+Proof. vm_compute. reflexivity. Qed.
+Example ex_index_of : call MIndexOf [EInt 1; EStr "1"] [EStr "1"] = (EInt 1, [EInt 1; EStr "1"]).
+Proof. vm_compute. reflexivity. Qed.
+(* hypotheses of call_is_spec are satisfiable with out-of-range and omitted arguments *)
+Example ex_spec_dom : spec_call MSlice a5 [EInt (-9); ENull] <> None /\ spec_call MSplice a5 [EInt 7] <> None
+                   /\ spec_call MFlat a5 [] <> None /\ spec_call MIndexOf a5 [EInt 3; EInt (-1)] <> None.
+Proof. repeat split; discriminate. Qed.
+Example ex_cb : call_cb MMap (cb_fun CbPair) [EStr "x"; ENull] = (EArr [EArr [EStr "x"; EInt 0]; EArr [ENull; EInt 1]], [EStr "x"; ENull]).
+Proof. vm_compute. reflexivity. Qed.
+Example ex_sort : ssort [EInt 10; EInt 9; EStr "1"; EInt 1] = [EStr "1"; EInt 1; EInt 10; EInt 9].
+Proof. vm_compute. reflexivity. Qed.
+(* docs/strings.md *)
+Example ex_substring : scall SSubstring "Hello World" [EInt 0; EInt 5] = Some (EStr "Hello")
+                    /\ scall SSubstring "Hello World" [EInt 6] = Some (EStr "World")
+                    /\ scall SSubstring "hello" [EInt 7; EInt 2] = Some (EStr "llo").
+Proof. repeat split; vm_compute; reflexivity. Qed.
+Example ex_replace : scall SReplace "Hello World" [EStr "o"; EStr "0"] = Some (EStr "Hell0 W0rld").
+Proof. vm_compute. reflexivity. Qed.
+Example ex_split : scall SSplit "Hello World" [EStr "o"] = Some (EArr [EStr "Hell"; EStr " W"; EStr "rld"])
+                /\ scall SSplit "Hello World" [] = Some (EArr [EStr "Hello"; EStr "World"]).
+Proof. split; vm_compute; reflexivity. Qed.
+Example ex_sspec_dom : sspec SSubstring "hello" [EInt (-3); EInt 99] <> None.
+Proof. discriminate. Qed.
